@@ -24,7 +24,8 @@ NORMAL = None
 class LoopSpec:
     """Cut-point specification of one loop (keyed by function qualname + loop ordinal)."""
 
-    def __init__(self, inv, modifies=None, types=None, ghost=None, unroll=None):
+    def __init__(self, inv, modifies=None, types=None, ghost=None, unroll=None, opaque=()):
+        self.opaque = tuple(opaque)   # locals abstracted to an opaque value (e.g. error-report state)
         self.inv = inv            # callable(L) -> SBool | [(label, SBool)]
         self.modifies = modifies  # list of local names / "self.field"; None = syntactic
         self.types = types or {}  # name -> T for havoc
@@ -114,6 +115,7 @@ class Engine:
         self._obl_keep = []
         self._inc = None
         self.nfeas = 0
+        self.abstracted = set()  # locals replaced by an opaque value (reported in evidence)
         self.yield_hooks = {}    # qualname of a generator function -> hook(engine, st, value)
         from . import builtins as B
         self.B = B
@@ -253,6 +255,9 @@ class Engine:
             return
         if v is None:
             yield st, False
+            return
+        if v is OPAQUE:
+            yield from self.branch(st, Bool.fresh("opaque").z, note)
             return
         if isinstance(v, SBool):
             yield from self.branch(st, v.z, note)
@@ -902,7 +907,12 @@ class Engine:
 
     def _havoc(self, node, spec, st):
         names = spec.modifies if spec.modifies is not None else _assigned_names(node)
+        for name in spec.opaque:
+            st.frame.vars[name] = OPAQUE
+            self.abstracted.add(f"{st.frame.fname}:{name}")
         for name in names:
+            if name in spec.opaque:
+                continue
             if name.startswith("self."):
                 selfv = st.frame.vars["self"]
                 fld = name[5:]
@@ -1387,6 +1397,9 @@ class Engine:
         if obj is None:
             yield st, ExcVal(AttributeError, (name,), self.where(st, node) if node else "")
             return
+        if obj is OPAQUE:
+            yield st, OPAQUE
+            return
         if isinstance(obj, Loc):
             c = st.load(obj)
             if isinstance(c, Rec):
@@ -1427,6 +1440,12 @@ class Engine:
             return
         if isinstance(obj, (SSeq, SMap, SSet)):
             yield st, ContainerMethod(obj, name)
+            return
+        if isinstance(obj, SEnum) and name == "name":
+            yield st, self.B.uf_value(self, st, f"{obj.t.pyenum.__name__}.name", [obj.z], [obj.t.z3sort()], Str)
+            return
+        if isinstance(obj, SEnum) and name == "value":
+            yield st, SUnion([(obj.z == obj.t.consts[m], m.value) for m in obj.t.members])
             return
         if isinstance(obj, ExcVal):
             raise Unsupported("attribute of exception value")
@@ -1495,6 +1514,9 @@ class Engine:
             for s, ff in self.force(st, f):
                 yield from self.call(s, ff, args, kwargs, node)
             return
+        if f is OPAQUE:
+            yield st, OPAQUE
+            return
         if any(isinstance(a, StarSeq) for a in args):
             if not isinstance(f, SymMethod):
                 raise Unsupported("star-call with symbolic-length sequence to non-contract callee")
@@ -1513,7 +1535,14 @@ class Engine:
                 yield from t.methods[f.name](self, st, f.selfv, list(args), kwargs)
                 return
             argTs, resT = t.observers[f.name]
-            yield st, self.B.observer_uf(self, st, f.selfv, f.name, argTs, resT, args)
+
+            def forced(i, s0, acc):
+                if i == len(args):
+                    yield s0, self.B.observer_uf(self, s0, f.selfv, f.name, argTs, resT, acc)
+                    return
+                for s1, a in self.force(s0, args[i]):
+                    yield from forced(i + 1, s1, acc + [a])
+            yield from forced(0, st, [])
             return
         if isinstance(f, ContainerMethod):
             yield from self.B.container_call(self, st, f.target, f.name, list(args), kwargs, node)
@@ -1685,6 +1714,16 @@ _PURE_NATIVE = {"get", "keys", "values", "items", "startswith", "endswith", "low
                 "join", "format", "strip", "index", "count", "copy", "union", "intersection", "issubset",
                 "issuperset", "difference", "isdisjoint", "replace", "isdigit", "__contains__", "find",
                 "lstrip", "rstrip", "isalpha", "isalnum", "title", "capitalize"}
+
+
+class Opaque:
+    """value of a local the contract declares irrelevant (every operation on it yields OPAQUE again)"""
+
+    def __repr__(self):
+        return "OPAQUE"
+
+
+OPAQUE = Opaque()
 
 
 class Poison:
